@@ -73,7 +73,7 @@ def install():
     def attach(e, f):
         n0 = len(REC.stack_calls)
         try:
-            ev = {'pass_through': hasattr(e, 'ag_pass_through'), 'had_md': hasattr(e, 'ag_error_metadata'),
+            ev = {'exc': e, 'pass_through': hasattr(e, 'ag_pass_through'), 'had_md': hasattr(e, 'ag_error_metadata'),
                   'full_tb': [tuple(fr) for fr in traceback.extract_tb(sys.exc_info()[2])], 'map': getattr(f, 'ag_source_map', None)}
         except Exception:
             ev = {}
@@ -86,7 +86,8 @@ def install():
     def to_exception(self, source_error):
         exc = orig_toexc(self, source_error)
         try:
-            REC.events.append(('rethrow', {'sets_pass_through': hasattr(exc, 'ag_pass_through'), 'type': type(exc),
+            REC.events.append(('rethrow', {'source': source_error, 'result': exc,
+                                           'sets_pass_through': hasattr(exc, 'ag_pass_through'), 'type': type(exc),
                                            'same_md': getattr(exc, 'ag_error_metadata', None) is self}))
         except Exception:
             pass
@@ -371,6 +372,28 @@ def _root_from_code(code, sv):
     return None
 
 
+def final_lineage(events, final_exc):
+    """The events that belong to the exception that finally reached the caller (an exception handled on the way - the
+    failure a translating `except` block caught - has events of its own, earlier in the list).  Walking backwards: the
+    re-raise that produced `final_exc`, the attach events of the exception then in flight, and, if that one was itself
+    produced by an inner wrapper's re-raise, on through that wrapper."""
+    out, k, cur = [], len(events) - 1, final_exc
+    while k >= 0:
+        kind, ev = events[k]
+        if kind == 'rethrow' and ev.get('result') is cur:
+            out.append(k)
+            k -= 1
+            if k < 0 or events[k][0] != 'attach':
+                break
+            cur = events[k][1].get('exc')        # the exception in flight when that wrapper caught it
+            while k >= 0 and events[k][0] == 'attach' and events[k][1].get('exc') is cur:
+                out.append(k)
+                k -= 1
+            continue
+        break
+    return [events[i] for i in sorted(out)]
+
+
 def expected_units(U0, fn_conv, toplevel):
     """Group the user frames of the unconverted traceback (outermost first) into activations of
     module-level functions (nested defs / lambdas belong to the activation that contains them) and say
@@ -567,6 +590,11 @@ def _analyse(built, path, obs, out, want_corr):
                                      '(type rule, message and location lost)' % (o['type_name'], o['str'][:80], c['type_name'], c['str'][:120]),
                              'cls': None, 'oracle': 'metadata'})
         return out
+    # only the events of the exception that reached the caller count
+    lineage = final_lineage(obs.get('events') or [], c['exc'])
+    if lineage:
+        obs['events'] = lineage
+        obs['stack_calls'] = [obs['stack_calls'][ev['stack_call']] for k, ev in lineage if k == 'attach' and ev.get('stack_call') is not None]
     if not obs['stack_calls']:
         out['fails'].append({'what': 'ag_error_metadata present but _stack_trace_inside_mapped_code was never called', 'cls': None, 'oracle': 'metadata'})
         return out
@@ -660,6 +688,8 @@ def _analyse(built, path, obs, out, want_corr):
     for cv in convs:
         if cv['root'] is None:
             continue
+        # is the converted function itself one that carries __wrapped__ (class predicate of C12-wrapped-entity-origin-shift)?
+        cv_wrapped = _wrapped_entity_on_path(obs['module'], {_scope_name(cv['code'])})
         pairs = cv['pairs']
         if pairs is None:
             out['fails'].append({'what': 'the parallel walk of create_source_map could not be reproduced', 'cls': None, 'oracle': 'srcmap'})
@@ -719,7 +749,7 @@ def _analyse(built, path, obs, out, want_corr):
             bad.append('original statements on lines %s of %s are the origin of no generated statement' % (missing, root.split('@')[0]))
         for m in bad[:4]:
             out['fails'].append({'what': 'source map of %s: %s' % (root.split('@')[0], m),
-                                 'cls': 'wrapped_entity_origin_shift' if wrapped_path else None, 'oracle': 'srcmap'})
+                                 'cls': 'wrapped_entity_origin_shift' if (wrapped_path or cv_wrapped) else None, 'oracle': 'srcmap'})
         if want_corr:
             files, origins, items = items_request(pairs)
             out['corr'].append(('srcmap', 'c12.srcmap %s %s %s' % (sexp(files), sexp(origins), sexp(items)),
